@@ -205,16 +205,25 @@ Goto ==
   /\ ph' = "call"
   /\ UNCHANGED <<red, g, inp, opt, vals, nodes, it, endIt, cur, line, col, mode, status, msgs>>
 
+\* Rules WITHOUT a functor (GR(g).dflt): the left-side value is constructed from the right-side values;
+\* no right side -> a default value (no observable call); a single nonterminal -> that value itself, moved.
+IsDflt(r) == \E k \in DOMAIN GR(g).dflt : GR(g).dflt[k] = r
 Call ==                  \* the rule's functor: children's values in right-side order, exactly once
   /\ status = "run" /\ ph = "call"
   /\ LET r == red n == Len(RuleOf(r).r)
          args == SubSeq(vals, Len(vals) - n + 1, Len(vals))
          id == Len(nodes)
          lc(a) == IF a >= 0 /\ nodes[a + 1].k = 0 THEN <<nodes[a + 1].line, nodes[a + 1].col>> ELSE <<-1, -1>>
-     IN /\ nodes' = Append(nodes, [k |-> 1, sym |-> r, ch |-> args, off |-> -1, len |-> -1, line |-> -1, col |-> -1])
-        /\ vals' = Append(SubSeq(vals, 1, Len(vals) - n), id)
-        /\ ev' = IF GR(g).obsC THEN <<"call", r, id, args, [i \in 1..n |-> lc(args[i])[1]], [i \in 1..n |-> lc(args[i])[2]]>>
-                 ELSE <<"tau">>
+         rest == SubSeq(vals, 1, Len(vals) - n)
+     IN IF IsDflt(r) /\ n = 0
+        THEN nodes' = nodes /\ vals' = Append(rest, -1) /\ ev' = <<"tau">>
+        ELSE IF IsDflt(r) /\ n = 1 /\ RuleOf(r).r[1] < TB
+        THEN nodes' = nodes /\ vals' = vals /\ ev' = <<"tau">>
+        ELSE /\ nodes' = Append(nodes, [k |-> IF IsDflt(r) THEN 2 ELSE 1, sym |-> IF IsDflt(r) THEN -1 ELSE r, ch |-> args, off |-> -1, len |-> -1, line |-> -1, col |-> -1])
+             /\ vals' = Append(rest, id)
+             /\ ev' = IF IsDflt(r) THEN <<"dcall", id, args, [i \in 1..n |-> lc(args[i])[1]], [i \in 1..n |-> lc(args[i])[2]]>>
+                      ELSE IF GR(g).obsC THEN <<"call", r, id, args, [i \in 1..n |-> lc(args[i])[1]], [i \in 1..n |-> lc(args[i])[2]]>>
+                      ELSE <<"tau">>
   /\ ph' = "top" /\ red' = -1
   /\ UNCHANGED <<g, inp, opt, stack, sstack, it, endIt, cur, line, col, mode, status, msgs>>
 
